@@ -121,7 +121,9 @@ func cmdRun(args []string) {
 			}
 			for _, v := range r.Violations {
 				agg[fmt.Sprintf("VIOL %s %q shapes:", v.Kind, v.Label)]++
-				agg[fmt.Sprintf("VIOL %s %q shape=%d e.g. %s", v.Kind, v.Label, r.Job.Shape, compactModel(v.Model))] = 1
+				if agg[fmt.Sprintf("VIOL %s %q shapes:", v.Kind, v.Label)] <= 2 {
+					agg[fmt.Sprintf("VIOL %s %q shape=%d e.g. %s", v.Kind, v.Label, r.Job.Shape, compactModel(v.Model))] = 1
+				}
 			}
 			for _, s := range r.Inconcl {
 				agg["inconclusive: "+s]++
